@@ -38,7 +38,9 @@ RULE = (
     "directory request directly before and after a friend or block change for that user (nothing in between); up to "
     "3 application listeners (sync raising / async raising / harmless; priority in front of or behind the "
     "library's own listeners) are registered on SharedDirectoryChangeEvent, FriendListChangedEvent, "
-    "BlockListChangedEvent, ScanCompleteEvent: the library has to reconcile whatever they do. "
+    "BlockListChangedEvent, ScanCompleteEvent: the library has to reconcile whatever they do. 0..2 paused downloads "
+    "sit at the front of the transfer list and the local user may remove a transfer (by list position) 1..250 ms "
+    "after a change that revokes permissions, i.e. while the reconciliation of several uploads is in progress. "
     "Oracle = reference entitlement computed from the harness' own model of the configuration: visible(u,f) iff the "
     "innermost shared directory containing f admits u; may_upload(u,f) iff visible and u not blocked for UPLOADS. At "
     "the scripted peers: every PeerSearchReply.results / PeerSharesReply.directories / "
@@ -50,7 +52,8 @@ RULE = (
     "is ABORTED with reason Blocked (wins) / File not shared and receives no more bytes afterwards, and no upload "
     "completed at the peer later than 1.6 s after it lost its permission; each upload ABORTED for such a reason "
     "with may_upload (and a path the library still indexes) is no longer ABORTED; an upload aborted by the user "
-    "stays ABORTED with reason Requested. Violations on files whose index item was moved between nested shared "
+    "stays ABORTED with reason Requested; no PeerTransferRequest offer for an upload reaches the peer after the end of "
+    "the first manage_shares_changed() run that started after the upload lost its permission. Violations on files whose index item was moved between nested shared "
     "directories without being re-created carry the kind prefix C08/moved-item-keeps-old-directory. Non-trivial = "
     "a request touches a file locked for / a user blocked for it, or an excluded phrase applies, or a configuration "
     "change flips may_upload of an existing unfinished upload; distinct = distinct case document."
@@ -309,8 +312,8 @@ def _op(draw, m, targets):
     if kind == 'phrases':
         return {'t': 'phrases', 'p': draw(st.lists(st.sampled_from(PHRASES), max_size=2))}
     if kind == 'user':
-        return {'t': 'user', 'x': draw(st.integers(0, 4)), 'act': draw(st.sampled_from(['abort', 'abort', 'pause',
-                                                                                         'queue']))}
+        return {'t': 'user', 'x': draw(st.integers(0, 4)), 'act': draw(st.sampled_from(
+            ['abort', 'abort', 'abort', 'pause', 'pause', 'queue', 'queue', 'remove']))}
     return {'t': 'adv', 'dt': draw(st.sampled_from([0, 1, 2, 3, 3, 3, 3]))}
 
 
@@ -392,13 +395,46 @@ def case_strategy(draw, avoid=False):
     ops = []
     targets = []         # (user, file) of uploads that probably exist
     n = draw(st.integers(2, 12))
-    if draw(st.integers(0, 9)) < 7:
+    forced = {}
+    if draw(st.integers(0, 11)) == 0:
+        # scenario: one user has a running (slow file system, rate limited: long UPLOADING) and a waiting upload out
+        # of the same directory, old entries sit in front of them in the transfer list; one change revokes both and
+        # while the running one is being torn down the local user removes an entry near the front
+        u = draw(st.integers(0, 2))
+        pairs = [(f1, f2) for f1 in range(len(FILES)) for f2 in range(len(FILES))
+                 if f1 != f2 and FILES[f1][2] >= 2500 and m.may_upload(u, f1) and m.may_upload(u, f2)
+                 and m.innermost(f1) == m.innermost(f2)]
+        if pairs:
+            f1, f2 = draw(st.sampled_from(pairs))
+            via = [ENCL[f].index(m.innermost(f)) for f in (f1, f2)]
+            xd = draw(st.integers(2, len(XDELAYS) - 1))
+            revoke = []
+            for op in _config_candidates(m, u, f1):
+                m2 = m.copy()
+                _apply_to_model(m2, op)
+                if not m2.may_upload(u, f1) and not m2.may_upload(u, f2):
+                    revoke += [op] * (4 if op['t'] in ('setmode', 'rmdir', 'adddir') else 1)
+            change = dict(draw(st.sampled_from(revoke or [{'t': 'block', 'u': u, 'flags': 63, 'rm': False}])))
+            change['gap'] = draw(st.sampled_from([g for g in GAPS if g < XDELAYS[xd] * 1000] + [GAPS[-1]]))
+            ops += [{'t': 'queue', 'u': u, 'f': f1, 'via': via[0], 'var': 0},
+                    {'t': 'queue', 'u': u, 'f': f2, 'via': via[1], 'var': 0}]
+            if draw(st.booleans()):
+                ops.append({'t': 'adv', 'dt': draw(st.sampled_from([0, 1]))})
+            ops += [change, {'t': 'user', 'x': draw(st.sampled_from([0, 0, 0, 1])), 'act': 'remove'},
+                    {'t': 'adv', 'dt': 3}]
+            _apply_to_model(m, change)
+            behav = [draw(st.sampled_from([0, 0, 1, 2, 3])) for _ in USERS]
+            behav[u] = 0
+            forced = {'xdelay': xd, 'limit': 1, 'front': draw(st.sampled_from([1, 1, 2])), 'behav': behav}
+    elif draw(st.integers(0, 9)) < 7:
         # scenario prefix: a few uploads that exist before the configuration starts to move
+        same_user = draw(st.sampled_from([None, None, 0, 1, 2]))     # several uploads of one user: one runs, others wait
         for _ in range(draw(st.integers(1, 3))):
-            ops.append(draw(_path_op(m, draw(st.sampled_from(['queue', 'queue', 'treq'])), want_visible=True)))
+            ops.append(draw(_path_op(m, draw(st.sampled_from(['queue', 'queue', 'treq'])), u=same_user,
+                                     want_visible=True)))
             ops[-1]['var'] = 0
     for op in ops:
-        if m.may_upload(op['u'], op['f']):
+        if op['t'] in ('queue', 'treq') and m.may_upload(op['u'], op['f']):
             targets.append((op['u'], op['f'], op['via']))
     while len(ops) < n:
         if len(targets) >= 2 and len(ops) + 3 <= 12 and draw(st.integers(0, 9)) < 3:
@@ -408,6 +444,16 @@ def case_strategy(draw, avoid=False):
                     _apply_to_model(m, op)
                     ops.append(op)
                 ops.append({'t': 'adv', 'dt': 3})
+                continue
+        if targets and len(ops) + 3 <= 12 and draw(st.integers(0, 19)) < 3:
+            # a change that takes permissions away, and while it is being reconciled (slow abort of a running
+            # upload) the local user removes a transfer near the front of the transfer list
+            a = draw(_flip_op(m, [draw(st.sampled_from(targets))]))
+            if a is not None:
+                a['gap'] = draw(st.sampled_from([1, 5, 20, 50, 100, 150, 250]))
+                _apply_to_model(m, a)
+                ops += [a, {'t': 'user', 'x': draw(st.sampled_from([0, 0, 0, 1, 2])), 'act': 'remove'},
+                        {'t': 'adv', 'dt': 3}]
                 continue
         if len(ops) + 3 <= 12 and draw(st.integers(0, 9)) < 2:
             for op in draw(_rebrowse(m)):
@@ -433,10 +479,12 @@ def case_strategy(draw, avoid=False):
         'behav': [draw(st.sampled_from([0, 0, 1, 1, 1, 2, 2, 2, 3])) for _ in USERS],
         'limit': draw(st.sampled_from([0, 1])), 'slots': draw(st.sampled_from([1, 2, 2, 3])),
         'xdelay': draw(st.integers(0, len(XDELAYS) - 1)),
+        'front': draw(st.sampled_from([0, 1, 1, 2])),
         'listeners': draw(st.lists(st.tuples(
             st.sampled_from([0, 0, 0, 1, 2, 3]), st.sampled_from([0, 0, 0, 1, 2]),
             st.integers(0, len(LISTENER_PRIOS) - 1)).map(list), max_size=3)) if draw(st.integers(0, 9)) < 4 else [],
         'avoid': avoid, 'ops': ops[:12],
+        **forced,
     }
 
 
@@ -527,7 +575,7 @@ def _sanitise(case):
             ops.append({'t': t, 'p': _phrases(op.get('p'))})
         elif t == 'user':
             act = op.get('act')
-            ops.append({'t': t, 'x': g('x') % 16, 'act': act if act in ('abort', 'pause', 'queue') else 'abort'})
+            ops.append({'t': t, 'x': g('x') % 16, 'act': act if act in ('abort', 'pause', 'queue', 'remove') else 'abort'})
         elif t == 'adv':
             ops.append({'t': t, 'dt': g('dt') % len(ADVANCES)})
     listeners = []
@@ -536,7 +584,7 @@ def _sanitise(case):
             listeners.append((_int(e[0]) % len(LISTENER_EVENTS), _int(e[1]) % len(LISTENER_KINDS),
                               LISTENER_PRIOS[_int(e[2]) % len(LISTENER_PRIOS)]))
     return {
-        'listeners': listeners,
+        'listeners': listeners, 'front': _int(case.get('front')) % 3,
         'dirs': dirs, 'friends': _users(case.get('friends')), 'blocked': blocked,
         'phrases': _phrases(case.get('phrases')), 'behav': behav, 'limit': _int(case.get('limit')) % 2,
         'slots': 1 + (_int(case.get('slots')) - 1) % 3, 'avoid': bool(case.get('avoid')), 'ops': ops,
@@ -634,11 +682,27 @@ def run_case(case) -> CaseResult:
                 client.events.register(getattr(events_module, LISTENER_EVENTS[ev]), listener, priority=prio)
                 res.label(f'listener:{LISTENER_EVENTS[ev]}:{LISTENER_KINDS[kind]}:' +
                           ('front' if prio < 100 else 'back'))
+            # observation only: when did the library re-evaluate the uploads (TransferManager.manage_shares_changed is
+            # looked up on the instance by the management job)
+            msc_runs = []        # [start, end, loop iteration at start] (virtual time)
+            orig_msc = client.transfers.manage_shares_changed
+
+            async def observed_msc():
+                rec = [world.loop.time(), None, world.loop.iterations]
+                msc_runs.append(rec)
+                try:
+                    return await orig_msc()
+                finally:
+                    rec[1] = world.loop.time()
+            client.transfers.manage_shares_changed = observed_msc
             await client.start()
             await client.login()
             shares = client.shares
             transfers = client.transfers
             await shares.scan()
+            # old entries at the front of the transfer list (paused downloads from a user that plays no other role)
+            for i in range(c['front']):
+                await transfers.download('dave', '@@qqqqq\\old %d.txt' % i, paused=True)
             await asyncio.sleep(0.05)
             xd = c['xdelay']
             if xd:
@@ -849,6 +913,7 @@ def run_case(case) -> CaseResult:
                                                 f'does not admit {name}')
 
             # ---- reconciliation ---------------------------------------------------
+            revoked_iter = {}    # same moment as a loop iteration number (orders events of one virtual instant)
             revoked_at = {}      # (username, remote path) -> time may_upload was lost while the upload was unfinished
             requested = set()    # (username, remote path) aborted by the local user and not queued since
             frozen = {}          # (username, remote path) -> bytes received when found reconciled and not permitted
@@ -881,6 +946,22 @@ def run_case(case) -> CaseResult:
                     st_name = t.state.VALUE.name
                     reason = t.abort_reason
                     extra = f' [loop errors: {loop_errors_now}]' if loop_errors_now else ''
+                    t_rev = revoked_at.get(key)
+                    if t_rev is not None and not model.may_upload(u, f):
+                        # reconciliation point = end of the first re-evaluation that started after the permission
+                        # was lost (it reads the live settings). An offer sent by an earlier cycle reaches the peer
+                        # at least 40 ms before that point; anything later was started although not permitted
+                        it_rev = revoked_iter.get(key, 1 << 60)
+                        done_at = next((e for b, e, it in msc_runs if it > it_rev and e is not None), None)
+                        if done_at is not None:
+                            late = [round(tm - 1000, 3) for tm, m in downs[uname].transfer_requests
+                                    if m.filename == r and tm > done_at - 0.01]
+                            if late:
+                                violate(K('upload-offered-after-reconciliation', f),
+                                        f'{tag}: upload {key} lost its permission at t={t_rev - 1000:.3f} '
+                                        f'({model.why_not(u, f)}); the library finished re-evaluating its uploads at '
+                                        f't={done_at - 1000:.3f} and still offered the file (PeerTransferRequest at the '
+                                        f'peer at t={late}), state now {st_name}{extra}')
                     if key in requested:
                         if st_name != 'ABORTED' or reason != 'Requested':
                             violate(K('requested-abort-not-kept', f),
@@ -945,6 +1026,7 @@ def run_case(case) -> CaseResult:
                             revoked_at.pop((uname, r), None)
                         else:
                             revoked_at[(uname, r)] = loop.time()
+                            revoked_iter[(uname, r)] = loop.iterations
 
             # ---- operations ---------------------------------------------------------
             last_change = {}     # user index -> time of the last friend/block change
@@ -1069,6 +1151,22 @@ def run_case(case) -> CaseResult:
                 if t == 'phrases':
                     state['phrases'] = list(op['p'])
                     world.server.send(M.ExcludedSearchPhrases.Response(list(op['p'])))
+                    await asyncio.sleep(0.02)
+                    return
+                if t == 'user' and op['act'] == 'remove':
+                    # the local user clears an entry, addressed by its position in the live transfer list
+                    allt = list(transfers.transfers)
+                    if not allt:
+                        return
+                    tr = allt[op['x'] % len(allt)]
+                    key = (tr.username, tr.remote_path)
+                    res.label('user-remove:' + ('upload:' if tr.is_upload() else 'download:') + tr.state.VALUE.name)
+                    ok, _ = await lib('transfers.remove', transfers.remove, tr, documented=(TransferNotFoundError,))
+                    if ok and tr.is_upload():
+                        requested.discard(key)
+                        frozen.pop(key, None)
+                        revoked_at.pop(key, None)
+                    del tr, allt
                     await asyncio.sleep(0.02)
                     return
                 if t == 'user':
